@@ -507,3 +507,30 @@ Proof.
     destruct (push_all_ok l r0 _ [] false eq_refl I0 A0) as (? & ? & ? & ? & ? & ?); [simpl; lia|].
     repeat split; auto.
 Qed.
+
+(** copy-assignment onto an unallocated buffer (default-constructed, moved-from or deallocated: no block, capacity 0) *)
+Lemma copy_assign_none_ok dst src d l :
+  data dst = None -> rbegin dst = rend dst -> cap dst = 0 ->
+  data src = Some d -> Inv src -> Abs src l ->
+  let x := copy_assign dst src in
+  bad x = false /\ Inv (buf x) /\ Abs (buf x) l /\ data (buf x) <> None /\
+  max_size (buf x) = max_size src /\ cap (buf x) = cap src.
+Proof.
+  intros Hdn E C0 Hd HI HA. unfold copy_assign.
+  assert (clear dst = {| buf := dst; bad := false |}) as CL.
+  { unfold clear. rewrite C0. simpl. rewrite E, Nat.eqb_refl. reflexivity. }
+  rewrite CL. cbn [buf bad orb]. rewrite HA.
+  assert (max_size src < cap src /\ size src <= max_size src) as [Hm Hs]
+    by (unfold Inv in HI; rewrite Hd in HI; tauto).
+  pose proof (Abs_length _ _ HA) as L.
+  assert (all_raw dst = true) as AR by (unfold all_raw; rewrite Hdn; reflexivity).
+  rewrite AR, C0. rewrite andb_false_r.
+  destruct (0 =? cap src) eqn:Ec; [apply Nat.eqb_eq in Ec; lia|]. cbn [negb].
+  set (r0 := {| max_size := max_size src; cap := cap src; data := Some (repeat None (cap src)); rbegin := 0; rend := 0 |}).
+  assert (Inv r0) as I0 by (apply Inv_fresh; lia).
+  assert (Abs r0 []) as A0 by (apply Abs_fresh; lia).
+  pose proof (Abs_length _ _ A0) as L0. simpl in L0.
+  destruct (push_all_ok l r0 _ [] false eq_refl I0 A0) as (? & ? & ? & ? & ? & ?); [simpl; lia|].
+  repeat split; auto.
+Qed.
+
